@@ -246,6 +246,10 @@ fn dkim_canonicalize_body(
             while out.ends_with(b"\r\n\r\n") {
                 out.truncate(out.len() - 2);
             }
+            // A body made of empty lines only is canonicalized to the empty body
+            if out == b"\r\n" {
+                out.clear();
+            }
             Cow::Owned(out)
         }
     }
